@@ -99,6 +99,23 @@ def gen_cuts(rnd, n, allow_single=True):
     return [pts[i + 1] - pts[i] for i in range(len(pts) - 1)]
 
 
+HUGE_LENGTHS = ["18446744073709551614", "18446744073709551606", "18446744073709551600", "18446744073709551560", "18446744073709551516",
+                "9999999999999999999", "9223372036854775808", "4294967296", "2147483648", "10000000", "18446744073709551000"]
+
+
+def gen_pending_case(rnd):
+    """Well-formed requests followed by one whose declared body length is huge (valid, below SIZE_MAX) and cannot have arrived: the
+    requests yielded are the complete ones, however the stream is split (a sum 'position + length' that wraps would hand out a
+    request with a cut body for some splits only)."""
+    s = b"".join(gen_request(rnd, False) for _ in range(rnd.choice([0, 0, 1, 2])))
+    hdrs = rnd.choice([[], ["A: b"], ["Host: h", "X-y: z"], ["K%d: v" % i for i in range(rnd.randint(1, 8))]])
+    hdrs.insert(rnd.randint(0, len(hdrs)), "Content-Length: " + rnd.choice(HUGE_LENGTHS))
+    s += (rnd.choice(METHODS) + " /p HTTP/1.1\r\n" + "".join(h + "\r\n" for h in hdrs) + "\r\n").encode()
+    s += rnd.choice([b"", b"a", b"abc", b"0123456789", bytes(rnd.randrange(256) for _ in range(rnd.randint(1, 120))),
+                     b"GET / HTTP/1.1\r\nContent-Length: 0\r\n\r\n"])
+    return {"hex": s.hex(), "cuts": gen_cuts(rnd, len(s)), "claim": "wf"}
+
+
 def gen_wf_case(rnd, close_ok=True, big=False):
     nreq = 1 if big else rnd.choice([1, 1, 2, 2, 3, 5])
     s = b"".join(gen_request(rnd, close_ok, big and i == 0) for i in range(nreq))
@@ -320,7 +337,7 @@ def run(ctx):
 
     # 3. parsing, code -> spec: random well-formed pipelines and hostile streams ------------------------------------------------
     nwf, nbig, nhost = (700, 6, 900) if q else (8000, 60, 12000)
-    wf = [gen_wf_case(rnd) for _ in range(nwf)] + [gen_wf_case(rnd, big=True) for _ in range(nbig)]
+    wf = [gen_wf_case(rnd) for _ in range(nwf)] + [gen_wf_case(rnd, big=True) for _ in range(nbig)] + [gen_pending_case(rnd) for _ in range(nwf // 6)]
     host = [gen_hostile_case(rnd) for _ in range(nhost)]
     rnd.shuffle(wf)
     ctx.sample({"kind": "random well-formed pipeline (first 300 bytes) fed to the real parser", "stream": bytes.fromhex(wf[0]["hex"])[:300].decode("latin-1"),
